@@ -424,6 +424,21 @@ func generate(rng *rand.Rand, steps int, profile string) ([]string, []string, ma
 			for rng.Intn(3) != 0 {
 				g.write(rng)
 			}
+			if profile == "rebuildreal" && rng.Intn(6) == 0 {
+				// the rebuild is interrupted: the newcomer's sync agent dies before the transfer; the
+				// newcomer must stay out of the read path, I/O goes on, the controller is shut down
+				g.do("rbabort")
+				g.feat["rebuild-interrupted"] = true
+				for rng.Intn(2) == 0 {
+					g.write(rng)
+				}
+				g.do(fmt.Sprintf("r %d %d", 0, g.nb()*8))
+				g.do("rbend")
+				g.do("open p")
+				g.do("mode RW")
+				g.punchd = true
+				break
+			}
 			g.do("rbreload")
 			g.do("holes")
 			g.do("loc")
